@@ -310,7 +310,10 @@ pub fn draw_plan(prop: &str, index: u64, r: &mut Rng, thorough: bool) -> RunPlan
     }
     // bulk builds with mass expiry (expiring-key world) / tens of thousands of copies in one
     // range (segment tree): the scale at which a single call meets 10^5 expired entries
-    if index % 4_001 == 9 && !interpreted && !cfg.has(O_TORN) && bulk.is_none() && ord_bulk.is_none() && cfg.cap <= 1_000_000 {
+    // (ten times as often in the process-outcome check, whose extra pass on an unoptimised build
+    // covers only its first few thousand runs)
+    let mass_stride = if cfg.has(O_CRASH) { 401 } else { 4_001 };
+    if index % mass_stride == 9 && !interpreted && !cfg.has(O_TORN) && bulk.is_none() && ord_bulk.is_none() && cfg.cap <= 1_000_000 {
         match cfg.world {
             WorldKind::Key => {
                 let with_list = cfg.colls & C_LIST != 0;
